@@ -35,6 +35,11 @@ def gen_case(rng):
         y = rng.standard_normal((ny, nf)) * rng.uniform(.5, 2)
         if rng.random() < .3:
             y = np.sort(y, axis=0)  # sorted column order is the easy case; most are unsorted
+    r3 = rng.random()
+    if r3 < .15:
+        x, y = np.asfortranarray(x), np.asfortranarray(y)
+    elif r3 < .25:
+        x, y = x.astype(np.float32), y.astype(np.float32)
     oned = nf == 1 and rng.random() < .5
     if oned:
         x, y = x[:, 0], y[:, 0]
@@ -46,8 +51,8 @@ def gen_case(rng):
 def check(ctx, case):
     from emd import cycles as C
     x, y, K, bound = case['x'], case['y'], case['K'], case['bound']
-    X = x[:, None] if x.ndim == 1 else x
-    Y = y[:, None] if y.ndim == 1 else y
+    X = np.asarray(x[:, None] if x.ndim == 1 else x, dtype=float)
+    Y = np.asarray(y[:, None] if y.ndim == 1 else y, dtype=float)
     dig = digest(x, y, K, bound)
     x0, y0 = x.copy(), y.copy()
     try:
